@@ -469,11 +469,14 @@ func (m *Mutex) Unlock() {
 type RWMutex struct {
 	writer  bool
 	readers int
+	waiting int // writers that have called Lock and are waiting: like sync.RWMutex, they hold back new readers
 }
 
 func (m *RWMutex) Lock() {
 	if x := cur; x != nil && x.cur != nil {
+		m.waiting++
 		x.point(&op{desc: "Lock", enabled: func() bool { return !m.writer && m.readers == 0 }})
+		m.waiting--
 	}
 	if (m.writer || m.readers != 0) && !Active() {
 		panic("sx: Lock of a held RWMutex outside an exploration")
@@ -488,9 +491,11 @@ func (m *RWMutex) Unlock() {
 	m.writer = false
 }
 
+// RLock blocks while a writer holds the lock or is waiting for it (sync.RWMutex: "a blocked Lock call
+// excludes new readers from acquiring the lock"), which is what makes recursive read locking deadlock.
 func (m *RWMutex) RLock() {
 	if x := cur; x != nil && x.cur != nil {
-		x.point(&op{desc: "RLock", enabled: func() bool { return !m.writer }})
+		x.point(&op{desc: "RLock", enabled: func() bool { return !m.writer && m.waiting == 0 }})
 	}
 	if m.writer && !Active() {
 		panic("sx: RLock of a write-locked RWMutex outside an exploration")
